@@ -260,4 +260,6 @@ def check(world, tier):
              sample={"Config::new calls in bin": calls, "Config struct literals in bin": made})
     from . import C04
     import_clause(world, tier, d, C04, "C04.c", ("stale-", "retry-counter"), "surplus-copies-inert")
+    # "exactly N+1 times": no extra burst before the negotiated time-out because of the time the copies take (timer re-armed after the burst)
+    import_clause(world, tier, d, C04, "C04.a", ("timer-rearmed",), "timer re-armed after the burst")
     return rep
